@@ -78,6 +78,9 @@ def gen_command(rng, tokens, i=0):
             spec['files'].append({'name': name, 'kind': 'binary', 'hex': 'e282', 'unit_hex': unit.hex(), 'repeat': total // nchars + 2})
         else:
             spec['files'].append({'name': name, 'kind': 'binary', 'hex': binary_content(rng).hex()})
+    for f in spec['files']:
+        if rng.random() < 0.2:
+            f['pin_mtime'] = True       # the command gives its output a fixed modification time (cp -p, tar x, touch -d ...)
     return spec
 
 
@@ -228,6 +231,9 @@ def _body(spec):
             out.append(_printf_bin(bytes.fromhex(f['hex'])) + ' >> ' + sh_path(f['name']))
         else:
             out.append(_printf_bin(bytes.fromhex(f['hex'])) + ' > ' + sh_path(f['name']))
+    for f in spec['files']:
+        if f.get('pin_mtime') and not f.get('missing'):
+            out.append("touch -d '2020-02-02 02:02:02' " + sh_path(f['name']))
     out.append('exit %d' % spec['status'])
     return out
 
